@@ -23,6 +23,11 @@ def gen(ctx):
     n = 40
     lays.append((n * MiB + B, [(i * MiB, i * MiB + B) for i in range(n)] + [(n * MiB, n * MiB + B)]))  # > 32 extents
     lays.append((2 * MiB + 2 * B, [(0, B), (B + 1 * MiB, 2 * B + MiB), (2 * MiB + B, 2 * MiB + 2 * B)]))
+    # denser sparse files: 1/8, 1/4 and 1/2 of the apparent size allocated (still sparse by st_blocks)
+    lays.append((16 * MiB, [(i * 8 * MiB, i * 8 * MiB + MiB) for i in range(2)]))          # 1/8
+    lays.append((8 * MiB, [(i * 4 * MiB + MiB, i * 4 * MiB + 2 * MiB) for i in range(2)]))  # 1/4
+    lays.append((6 * MiB, [(0, MiB), (2 * MiB, 3 * MiB), (4 * MiB, 5 * MiB)]))              # 1/2
+    lays.append((3 * MiB, [(0, 2 * MiB - B)]))                                               # 2/3, one hole at the end
     if not quick:
         lays.append((256 * MiB, [(0, B), (128 * MiB, 128 * MiB + 5 * B), (256 * MiB - B, 256 * MiB)]))
         for _ in range(40):
